@@ -10,6 +10,13 @@
     * every request that conflicts with a released signature is refused, whatever happened in between;
     * the released signatures of a key are pairwise non-slashable / have pairwise different slots.
   Assumed: a store call that returned is durable (badger SyncWrites), badger recovers what it synced.
+
+  Requests include the operations that do not sign (account creation, account and wallet lock / unlock,
+  the slashing-protection import command — all unrestricted — and the raw rules-level import).  The raw
+  import OVERWRITES the record of its key, so the executions considered contain only raw imports that
+  cover what the instance has approved so far for that key (`MStep.request` carries `Op.safeAt`, i.e.
+  `ImportCovers`); a raw import below that defeats the property with or without crashes (Props/C01.lean,
+  `C01_lowering_import_counterexample`).
 -/
 import Dirk.Props.FactsResults
 import Dirk.Lemmas.Crash
